@@ -87,7 +87,26 @@ const (
 	C16TgtPlain            // a literal address called without calldata
 	C16TgtCreated          // the address returned by the Ref'th create of the same frame (kept in memory)
 	C16TgtCreate2Of        // the CREATE2 address of frame Of (created by Creator), called without calldata
+	C16TgtSelf             // the executing account itself (ADDRESS), called without calldata
 )
+
+// C16PrecompileIndex: 1..8 for the native contracts 0x01..0x08 (ecrecover, sha256, ripemd160, identity,
+// modexp, bn256Add, bn256ScalarMul, bn256Pairing), 0 for every other address.
+func C16PrecompileIndex(a C16Addr) int {
+	for i := 0; i < 19; i++ {
+		if a[i] != 0 {
+			return 0
+		}
+	}
+	if a[19] >= 1 && a[19] <= 8 {
+		return int(a[19])
+	}
+	return 0
+}
+
+func C16PrecompileAddr(n int) C16Addr { return C16Addr{19: byte(n)} }
+
+var C16PrecompileNames = []string{"", "ecrecover", "sha256", "ripemd160", "identity", "modexp", "bn256Add", "bn256ScalarMul", "bn256Pairing"}
 
 type C16Inv struct {
 	Kind     int       `json:"kind"`
@@ -106,6 +125,16 @@ type C16Inv struct {
 	Policy   int       `json:"policy"`
 	RecSlot  uint64    `json:"recslot,omitempty"`
 	Salt     uint64    `json:"salt,omitempty"`
+
+	// literal targets (plain, self) only: the call data is the first InSize bytes of the frame's
+	// input staging area, into which Input has been copied just before (what earlier calls of the same
+	// frame execution left behind stays; beyond that the area is zero)
+	Input  []byte `json:"-"`
+	InSize int    `json:"insize,omitempty"`
+	// OutRec: the first 32 bytes of the output (zero-padded) go to storage slot OutSlot and
+	// RETURNDATASIZE+1 to OutSlot+1, after the result policy has been applied
+	OutRec  bool   `json:"outrec,omitempty"`
+	OutSlot uint64 `json:"outslot,omitempty"`
 }
 
 type C16Action struct {
@@ -124,12 +153,16 @@ const (
 	C16StubKill          // SELFDESTRUCT(Benef)
 	C16StubLog           // LOG0(32 bytes of Val); STOP
 	C16StubRevert        // SSTORE(Slot, Val); REVERT
+	C16StubZeros         // Size zero bytes (STOPs): at most C16MaxCodeSize may be deposited (EIP-170)
 )
 
-var C16StubNames = []string{"store", "kill", "log", "store-revert"}
+const C16MaxCodeSize = 24576
+
+var C16StubNames = []string{"store", "kill", "log", "store-revert", "zeros"}
 
 type C16Stub struct {
 	Kind  int     `json:"kind"`
+	Size  int     `json:"size,omitempty"`
 	Slot  uint64  `json:"slot,omitempty"`
 	Val   uint64  `json:"val,omitempty"`
 	Benef C16Addr `json:"-"`
@@ -143,6 +176,9 @@ type C16Frame struct {
 	Benef   C16Addr     `json:"-"`
 	Stub    *C16Stub    `json:"stub,omitempty"`
 	Doomed  bool        `json:"doomed,omitempty"` // inside a subtree whose root's terminator fails: gas may be anything
+	// Tight: the frame runs on gas that was sized by dry runs of the implementation (see C16Calib), not
+	// on provably ample gas; the reference trusts that it reaches its terminator
+	Tight bool `json:"tight,omitempty"`
 
 	// filled by the compiler
 	InitCode []byte `json:"-"` // create kinds
@@ -150,12 +186,59 @@ type C16Frame struct {
 	CallPCs  []int  `json:"-"`
 }
 
+// C16Calib: the transaction contains ONE creation frame (Boundary: the transaction's root if it is a
+// creation, else a CREATE/CREATE2 child of the Tight frame P) whose gas is placed at the boundary
+// "constructor paid, code deposit (200 gas per byte of returned code) just (not) paid". The knob is the
+// transaction's gas (P is the root, or the root is the creation) or the explicit gas constant of the
+// CALL that enters P (Knob). The harness finds by dry runs of the implementation the least knob value
+// Threshold at which the creation succeeds and sets the knob to Threshold-Delta.
+type C16Calib struct {
+	Knob      *C16Inv `json:"-"`
+	Choice    int     `json:"choice"` // which Delta: see C16DeltaOf
+	Threshold uint64  `json:"threshold,omitempty"`
+	Delta     int64   `json:"delta,omitempty"`
+	Done      bool    `json:"done,omitempty"`    // the knob was set
+	GaveUp    string  `json:"gave_up,omitempty"` // why not
+}
+
+// C16DeltaOf: how far below the threshold the knob is set; d = 200 * len(returned code).
+func C16DeltaOf(choice int, d int64) int64 {
+	switch choice {
+	case 0:
+		return 0 // exactly enough
+	case 1:
+		return -1
+	case 2:
+		return 1 // one gas short at the code deposit
+	case 3:
+		return 2
+	case 4:
+		return d / 2
+	case 5:
+		return d - 1
+	}
+	return d // (the constructor's last instruction is just paid)
+}
+
+const C16DeltaChoices = 7
+
 type C16Tx struct {
-	Root   *C16Frame `json:"root"`
-	Create bool      `json:"create,omitempty"` // top level is a contract creation with Root as init code
-	Value  uint64    `json:"value,omitempty"`
-	Gas    uint64    `json:"gas"`
-	Repeat int       `json:"repeat_of,omitempty"` // 1+index of the earlier transaction whose tree is run again
+	Root *C16Frame `json:"root"`
+	// Boundary/BoundaryFails: the creation frame whose gas was calibrated, and the verdict: the
+	// constructor completes, the code deposit is not paid, the frame fails
+	Boundary      *C16Frame `json:"-"`
+	BoundaryFails bool      `json:"boundary_fails,omitempty"`
+	// CreatorDies: what the creation hands back does not let the frame that issued it execute another
+	// instruction (go-youchain's CREATE forwards ALL gas): that frame fails with out of gas
+	CreatorDies bool      `json:"creator_dies,omitempty"`
+	Calib       *C16Calib `json:"calib,omitempty"`
+	// Direct (Root == nil): the transaction calls a literal address (native contract, code-less or absent
+	// account, a host without selector) with Value, exactly Gas and the call data Direct.CallData()
+	Direct *C16Inv `json:"direct,omitempty"`
+	Create bool    `json:"create,omitempty"` // top level is a contract creation with Root as init code
+	Value  uint64  `json:"value,omitempty"`
+	Gas    uint64  `json:"gas"`
+	Repeat int     `json:"repeat_of,omitempty"` // 1+index of the earlier transaction whose tree is run again
 }
 
 type C16Program struct {
@@ -176,7 +259,25 @@ func (p *C16Program) addrName(a C16Addr) string {
 	if a == p.Origin {
 		return "origin"
 	}
+	if n := C16PrecompileIndex(a); n > 0 {
+		return fmt.Sprintf("precompile-0x%02x(%s)", n, C16PrecompileNames[n])
+	}
 	return "0x" + strings.TrimLeft(a.Hex(), "0")
+}
+
+func ioStr(inv *C16Inv) string {
+	s := ""
+	if inv.InSize > 0 || len(inv.Input) > 0 {
+		h := fmt.Sprintf("%x", inv.Input)
+		if len(h) > 96 {
+			h = h[:96] + "…"
+		}
+		s += fmt.Sprintf(" calldata=staging[0:%d] after copying %d bytes %s", inv.InSize, len(inv.Input), h)
+	}
+	if inv.OutRec {
+		s += fmt.Sprintf(" output->slots %#x,%#x", inv.OutSlot, inv.OutSlot+1)
+	}
+	return s
 }
 
 func gasStr(inv *C16Inv) string {
@@ -216,11 +317,16 @@ func (p *C16Program) Render(f *C16Frame, indent string, sb *strings.Builder, see
 				if n.Doomed {
 					d = " (doomed)"
 				}
+				if n.Tight {
+					d += " (tight gas)"
+				}
 				fmt.Fprintf(sb, "%s%s node#%d%s value=%d %s -> %s%s {\n", indent, C16KindNames[inv.Kind], n.ID, where, inv.Value, gasStr(inv), pol, d)
 				p.Render(n, indent+"  ", sb, seen)
 				fmt.Fprintf(sb, "%s}\n", indent)
 			case C16TgtPlain:
-				fmt.Fprintf(sb, "%s%s plain %s value=%d %s -> %s\n", indent, C16KindNames[inv.Kind], p.addrName(inv.Addr), inv.Value, gasStr(inv), pol)
+				fmt.Fprintf(sb, "%s%s plain %s value=%d %s%s -> %s\n", indent, C16KindNames[inv.Kind], p.addrName(inv.Addr), inv.Value, gasStr(inv), ioStr(inv), pol)
+			case C16TgtSelf:
+				fmt.Fprintf(sb, "%s%s self(ADDRESS) value=%d %s%s -> %s\n", indent, C16KindNames[inv.Kind], inv.Value, gasStr(inv), ioStr(inv), pol)
 			case C16TgtCreated:
 				fmt.Fprintf(sb, "%s%s created[%d] value=%d %s -> %s\n", indent, C16KindNames[inv.Kind], inv.Ref, inv.Value, gasStr(inv), pol)
 			case C16TgtCreate2Of:
@@ -233,14 +339,29 @@ func (p *C16Program) Render(f *C16Frame, indent string, sb *strings.Builder, see
 		t += " -> " + p.addrName(f.Benef)
 	}
 	if f.Stub != nil && f.Term == C16TReturn {
-		t += fmt.Sprintf(" runtime-stub(%s slot=%#x val=%#x benef=%s)", C16StubNames[f.Stub.Kind], f.Stub.Slot, f.Stub.Val, p.addrName(f.Stub.Benef))
+		t += fmt.Sprintf(" runtime-stub(%s slot=%#x val=%#x benef=%s size=%d)", C16StubNames[f.Stub.Kind], f.Stub.Slot, f.Stub.Val, p.addrName(f.Stub.Benef), len(C16StubCode(f.Stub)))
 	}
 	fmt.Fprintf(sb, "%s%s\n", indent, t)
+}
+
+// CallData of a Direct transaction: Input truncated or zero-extended to InSize bytes.
+func (inv *C16Inv) CallData() []byte {
+	d := make([]byte, inv.InSize)
+	copy(d, inv.Input)
+	return d
 }
 
 func (p *C16Program) RenderTx(i int) string {
 	tx := p.Txs[i]
 	var sb strings.Builder
+	if tx.Direct != nil {
+		rep := ""
+		if tx.Repeat > 0 {
+			rep = fmt.Sprintf(" (same as tx%d)", tx.Repeat-1)
+		}
+		fmt.Fprintf(&sb, "tx%d: origin CALL %s directly, value=%d gas=%d calldata(%d bytes)=%x%s\n", i, p.addrName(tx.Direct.Addr), tx.Value, tx.Gas, tx.Direct.InSize, tx.Direct.CallData(), rep)
+		return sb.String()
+	}
 	kind := fmt.Sprintf("CALL H%d", tx.Root.Host)
 	if tx.Create {
 		kind = "CREATE"
@@ -248,6 +369,9 @@ func (p *C16Program) RenderTx(i int) string {
 	rep := ""
 	if tx.Repeat > 0 {
 		rep = fmt.Sprintf(" (same tree as tx%d)", tx.Repeat-1)
+	}
+	if c := tx.Calib; c != nil && c.Done {
+		rep += fmt.Sprintf(" [gas calibrated: creation node#%d succeeds from knob value %d on, knob set to %d (delta %d): code deposit fails=%v, creator out of gas right after=%v]", tx.Boundary.ID, c.Threshold, int64(c.Threshold)-c.Delta, c.Delta, tx.BoundaryFails, tx.CreatorDies)
 	}
 	fmt.Fprintf(&sb, "tx%d: origin %s node#%d value=%d gas=%d%s {\n", i, kind, tx.Root.ID, tx.Value, tx.Gas, rep)
 	p.Render(tx.Root, "  ", &sb, map[int]bool{})
